@@ -10,11 +10,13 @@
 package c14
 
 import (
+	"bytes"
 	"context"
 	"encoding/base64"
 	stderrors "errors"
 	"fmt"
 	"net/http"
+	"net/url"
 	"strings"
 	"testing"
 
@@ -285,6 +287,30 @@ func (prop) Run(t *testing.T, tape *kernel.Tape, sc kernel.Scenario) *kernel.Res
 			ws.apply(c)
 		}
 	}
+	// a fixed query parameter written into the path pattern or the base path yields to anything the caller's side sets
+	staticIn, staticName := tape.Choose(4, "static-query-parameter"), ""
+	if staticIn > 2 {
+		staticIn = 0
+	}
+	if staticIn != 0 {
+		staticName = keyName
+		if scheme == "bearer" {
+			staticName = "access_token"
+		}
+		env.Fault("static-query-parameter-named-like-the-credential")
+		if _, set := ws.query[staticName]; !set {
+			ws.query[staticName] = "anonymous-static"
+		}
+	}
+	debugMode := tape.Bool(4, "debug-mode")
+	earlierFailed := tape.Bool(3, "earlier-call-with-failing-streamed-body")
+	earlierFailAt := tape.Choose(300, "earlier-fail-at")
+	if debugMode {
+		env.Fault("debug-mode")
+	}
+	if earlierFailed {
+		env.Fault("earlier-call-failed-while-its-body-was-read")
+	}
 	placements := 0
 	if ws.authorization != "" {
 		placements++
@@ -465,8 +491,19 @@ func (prop) Run(t *testing.T, tape *kernel.Tape, sc kernel.Scenario) *kernel.Res
 		bridge := &simhttp.Bridge{Env: env, Name: "wire", Handler: handler,
 			BodyChunkMode: tape.Choose(4, "srv-chunk"), BodyFixed: 1 + tape.Choose(40, "srv-fixed"),
 			PullMode: tape.Choose(4, "pull"), PullFixed: 1 + tape.Choose(60, "pull-fixed"), SrvBodyFailPermille: bodyDies}
-		rt := client.New("sim.local", "/api", []string{"http"})
+		basePath, pattern := "/api", "/secured"
+		switch staticIn {
+		case 1:
+			pattern += "?" + url.QueryEscape(staticName) + "=anonymous-static"
+		case 2:
+			basePath += "?" + url.QueryEscape(staticName) + "=anonymous-static"
+		}
+		rt := client.New("sim.local", basePath, []string{"http"})
 		rt.Transport = bridge
+		if debugMode {
+			rt.Debug = true
+			rt.SetLogger(quietLogger{})
+		}
 		compose := func(l []cred) runtime.ClientAuthInfoWriter {
 			if len(l) == 1 {
 				return l[0].writer()
@@ -487,7 +524,7 @@ func (prop) Run(t *testing.T, tape *kernel.Tape, sc kernel.Scenario) *kernel.Res
 					Reader: runtime.ClientResponseReaderFunc(func(runtime.ClientResponse, runtime.Consumer) (any, error) { return nil, nil })})
 			}
 		}
-		cop := &runtime.ClientOperation{ID: "secured", Method: method, PathPattern: "/secured", Schemes: []string{"http"},
+		cop := &runtime.ClientOperation{ID: "secured", Method: method, PathPattern: pattern, Schemes: []string{"http"},
 			ProducesMediaTypes: []string{"application/json"}, ConsumesMediaTypes: op.Consumes,
 			Params: runtime.ClientRequestWriterFunc(func(req runtime.ClientRequest, _ strfmt.Registry) error {
 				_ = req.SetHeaderParam("X-Req", "0")
@@ -527,6 +564,23 @@ func (prop) Run(t *testing.T, tape *kernel.Tape, sc kernel.Scenario) *kernel.Res
 				}
 				if len(defCreds) > 0 {
 					rt.DefaultAuthentication = compose(defCreds)
+				}
+				if earlierFailed {
+					// an earlier call through the very same credential writers whose streamed payload broke off
+					// while it was being read: whatever that call left behind must not reach this one
+					data := bytes.Repeat([]byte("earlier payload "), 20)
+					st := kernel.NewStream(env, "earlier-payload", data[:earlierFailAt])
+					st.Term = &kernel.InjectedError{What: "payload source failed"}
+					st.ChunkMode = kernel.ChunkRandom
+					_, _ = rt.Submit(&runtime.ClientOperation{ID: "secured", Method: method, PathPattern: pattern, Schemes: []string{"http"},
+						ProducesMediaTypes: []string{"application/json"}, ConsumesMediaTypes: []string{"application/octet-stream"}, AuthInfo: cop.AuthInfo,
+						Params: runtime.ClientRequestWriterFunc(func(req runtime.ClientRequest, _ strfmt.Registry) error {
+							_ = req.SetHeaderParam("X-Req", "0")
+							return req.SetBodyParam(kernel.ReaderOnly{S: st})
+						}),
+						Reader: runtime.ClientResponseReaderFunc(func(runtime.ClientResponse, runtime.Consumer) (any, error) { return nil, nil })})
+					calls, rec.results = nil, nil
+					*world.Slots[0] = simapi.Obs{AuthScopes: map[string][]string{}}
 				}
 				_, submitErr = rt.Submit(cop)
 				if followUp && want != nil {
@@ -677,3 +731,8 @@ func placementClass(ws *wireState) string {
 }
 
 var _ = stderrors.New
+
+type quietLogger struct{}
+
+func (quietLogger) Printf(string, ...interface{}) {}
+func (quietLogger) Debugf(string, ...interface{}) {}
